@@ -274,6 +274,13 @@ def d34():
   return None if not out else 'load_supply_device: ' + '; '.join(out)
 
 
+def d35():
+  c = {'type': 'ineq', 'fun': lambda s: 3 - s[0], 'jac': lambda s: np.array([-1., 0])}
+  a = ADevice('a', 2, (0, 2), (1, 3), constraints=[c])
+  b = ADevice.from_dict(a.to_dict())
+  return None if len(b.constraints) == len(a.constraints) else 'ADevice round trip: %d constraints become %d' % (len(a.constraints), len(b.constraints))
+
+
 if __name__ == '__main__':
   names = [a for a in sys.argv[2:]] or sorted(k for k in globals() if k[0] == 'd' and k[1:3].isdigit())
   bad = 0
